@@ -1,8 +1,118 @@
-(** C20 — property theorems (binding half; see props/C20/NOTES.md for what is not claimed). *)
-From Coq Require Import List String Bool Floats.
+(** C20 — Quantum operations implement their documented gates: the BINDING half.
+
+    Every statement is about [gen_fns]/[gen_tables], the tables REGENERATED from /repo's
+    std/quantum, std/qsystem, std/angles and the custom call compilers on this run.
+    What is NOT here (see props/C20/NOTES.md): the matrices of the tket ops and the emulator —
+    "emulated state = product of the documented matrices" cannot be observed in this sandbox.
+    Qubits [q0 q1 q2 : qid] and angle/float operands [a0 a1 : fexp] are universally
+    quantified: any assignment of qubits to parameters, any (symbolic) angle expression. *)
+From Coq Require Import List String Bool.
+From Coq Require Floats.
 From V.C20 Require Import Model Spec GenGates Proofs.
 Import ListNotations.
+Open Scope string_scope.
+(* [idtac ""] only prints an empty line, so that the Print Assumptions blocks stay separated in the log *)
 
-Theorem binding_table_faithful : forall q0 q1 q2 a0 a1, Forall (prim_ok q0 q1 q2 a0 a1) gen_fns.
-Proof. exact prims_faithful. Qed.
+(* Every function bound to an op (by @hugr_op(quantum_op(N)) or a custom compiler) is in the documented
+   naming map and a call emits exactly ONE op, the documented one, on its qubit arguments in
+   declaration order, with each angle argument passed as its half-turns unscaled (each float as given);
+   afterwards every argument variable still holds the same qubit (borrowed qubits come back in order),
+   and the call's value is the op's result.  Bound: the generated table (finite). *)
+Theorem binding_table_faithful : forall q0 q1 q2 a0 a1,
+  Forall (prim_ok q0 q1 q2 a0 a1) gen_fns /\ naming_covered = true.
+Proof. idtac "". intros. split; [apply prims_faithful | exact naming_covered_ok]. Qed.
 Print Assumptions binding_table_faithful.
+
+(* The table theorems are not vacuous: as many op-bound functions as naming entries, >= 25 functional
+   variants, >= 20 documented gate names. *)
+Example tables_nontrivial : n_custom = List.length naming /\ Nat.leb 25 n_functional = true /\ Nat.leb 20 n_documented = true.
+Proof. idtac "". exact table_sizes. Qed.
+
+(* ch, phased_x, zz_phase, zz_max, qsystem.rz, the qubit methods and measure_leaked expand to the
+   documented op sequence (operands equal as IEEE values for every run-time input), and every
+   Guppy-bodied gate function has such a documented expansion (or is one of the two array functions). *)
+Theorem composites_expand : forall q0 q1 a0 a1,
+  Forall (composite_ok q0 q1 a0 a1) gen_fns /\ composites_all_documented = true.
+Proof. idtac "". intros. split; [apply composites_ok | exact composites_all_documented_ok]. Qed.
+Print Assumptions composites_expand.
+
+(* Each function of std.quantum.functional / std.qsystem.functional emits the same ops as its
+   namesake on the same arguments and returns the borrowed qubits in declaration order, then the result. *)
+Theorem functional_variants_agree : forall q0 q1 q2 a0 a1, Forall (functional_ok q0 q1 q2 a0 a1) gen_fns.
+Proof. idtac "". exact functional_variants_ok. Qed.
+Print Assumptions functional_variants_agree.
+
+(* measure_array / discard_array: for EVERY array length the generated bodies measure / free the
+   elements one by one in index order (the loop-level statements; the surrounding call is computed
+   for lengths 0..4 in [arrays_small]). *)
+Theorem measure_array_any_length :
+  body_of "quantum" "measure_array" = Some [SReturn (EMapArr "quantum" "measure" "qubits")] /\
+  forall fuel en pre qs, eget en "qubits" = Some (qarr qs) ->
+    eval_expr gen_tables (S fuel) en pre (EMapArr "quantum" "measure" "qubits")
+    = Ok (VArr (meas_bits (List.length pre) qs), eset en "qubits" VUnit,
+          app pre (seq_events "tket.quantum" "MeasureFree" qs)).
+Proof. idtac "". split; [exact measure_array_body | exact measure_array_body_any_length]. Qed.
+Print Assumptions measure_array_any_length.
+
+Theorem discard_array_any_length :
+  body_of "quantum" "discard_array" = Some [SFor "q" "qubits" dbody] /\
+  forall k qs pre, exists en',
+    for_loop (fun en evs => exec_stmts gen_tables (S (S (S k))) en evs dbody) "q" (map VQ qs) [("qubits", VUnit)] pre
+    = Ok (en', app pre (seq_events "tket.quantum" "QFree" qs)).
+Proof. idtac "". split; [exact discard_array_body | intros; apply discard_loop; left; reflexivity]. Qed.
+Print Assumptions discard_array_any_length.
+
+Theorem array_functions_small : arrays_small_ok = true.
+Proof. idtac "". exact arrays_small. Qed.
+
+(* Angle arithmetic is the corresponding IEEE double operation on half-turns; pi is one half-turn;
+   float(angle) multiplies by math.pi (radians). *)
+Theorem angle_arithmetic_is_ieee : forall a b rho,
+  (exists e, angle_call "angle.__add__" [VAng a; VAng b] = Ok (VAng e, [VAng a; VAng b], []) /\
+             feval rho e = PrimFloat.add (feval rho a) (feval rho b)) /\
+  (exists e, angle_call "angle.__sub__" [VAng a; VAng b] = Ok (VAng e, [VAng a; VAng b], []) /\
+             feval rho e = PrimFloat.sub (feval rho a) (feval rho b)) /\
+  (exists e, angle_call "angle.__mul__" [VAng a; VF b] = Ok (VAng e, [VAng a; VF b], []) /\
+             feval rho e = PrimFloat.mul (feval rho a) (feval rho b)) /\
+  (exists e, angle_call "angle.__rmul__" [VAng a; VF b] = Ok (VAng e, [VAng a; VF b], []) /\
+             feval rho e = PrimFloat.mul (feval rho a) (feval rho b)) /\
+  (exists e, angle_call "angle.__truediv__" [VAng a; VF b] = Ok (VAng e, [VAng a; VF b], []) /\
+             feval rho e = PrimFloat.div (feval rho a) (feval rho b)) /\
+  (exists e, angle_call "angle.__rtruediv__" [VAng a; VF b] = Ok (VAng e, [VAng a; VF b], []) /\
+             feval rho e = PrimFloat.div (feval rho b) (feval rho a)) /\
+  (exists e, angle_call "angle.__neg__" [VAng a] = Ok (VAng e, [VAng a], []) /\
+             feval rho e = PrimFloat.opp (feval rho a)) /\
+  (exists e, angle_call "angle.__float__" [VAng a] = Ok (VF e, [VAng a], []) /\
+             feval rho e = PrimFloat.mul (feval rho a) math_pi) /\
+  gen_tables.(t_pi_halfturns) = one_halfturn.
+Proof. idtac "".
+  intros a b rho. destruct (angle_methods a b) as (H1 & H2 & H3 & H4 & H5 & H6 & H7 & H8 & _).
+  repeat split; try (eexists; split; [eassumption | reflexivity]).
+Qed.
+Print Assumptions angle_arithmetic_is_ieee.
+
+(* `+ - * /`, unary minus and float() written in a program reach those methods, reflected forms included *)
+Theorem operators_reach_angle_methods : forall a b x,
+  let en := [("a", VAng a); ("b", VAng b); ("x", VF x)] in
+  eval_closed (EBin OpAdd (EVar "a") (EVar "b")) en = Ok (VAng (FAdd a b), en, []) /\
+  eval_closed (EBin OpSub (EVar "a") (EVar "b")) en = Ok (VAng (FSub a b), en, []) /\
+  eval_closed (EBin OpMul (EVar "a") (EVar "x")) en = Ok (VAng (FMul a x), en, []) /\
+  eval_closed (EBin OpMul (EVar "x") (EVar "a")) en = Ok (VAng (FMul a x), en, []) /\
+  eval_closed (EBin OpDiv (EVar "a") (EVar "x")) en = Ok (VAng (FDiv a x), en, []) /\
+  eval_closed (EBin OpDiv (EVar "x") (EVar "a")) en = Ok (VAng (FDiv x a), en, []) /\
+  eval_closed (ENeg (EVar "a")) en = Ok (VAng (FNeg a), en, []) /\
+  eval_closed (EFloatOf (EVar "a")) en = Ok (VF (FMul a (FConst math_pi)), en, []) /\
+  eval_closed (EBin OpDiv EPi (ENum two)) en = Ok (VAng (FDiv (FConst one_halfturn) (FConst two)), en, []).
+Proof. idtac "". exact operator_dispatch. Qed.
+Print Assumptions operators_reach_angle_methods.
+
+(* The docstrings agree with the bindings: \mathrm{Name}[^\dagger] names the bound op (or the documented
+   composite) and "Qubit ordering: [...]" lists the qubit parameters in declaration order. *)
+Theorem docstrings_agree : forallb doc_consistent gen_fns = true.
+Proof. idtac "". exact docs_consistent. Qed.
+Print Assumptions docstrings_agree.
+
+(* constant folding used when comparing symbolic angles is exact *)
+Theorem fnorm_exact : forall rho e, feval rho (fnorm e) = feval rho e.
+Proof. idtac "". exact fnorm_sound. Qed.
+Print Assumptions fnorm_exact.
